@@ -23,7 +23,20 @@ func (x *Exec) typeOf(e ast.Expr) types.Type {
 	return nil
 }
 
+// arrayLen is the length of an array type: symbolic when it is one of the symbolic table sizes.
+func (x *Exec) arrayLen(u *types.Array) string {
+	if k, ok := x.symByVal[u.Len()]; ok {
+		return k
+	}
+	return fmt.Sprint(u.Len())
+}
+
 func (x *Exec) eval(e ast.Expr, st *State) Term {
+	if id, ok := ast.Unparen(e).(*ast.Ident); ok {
+		if k, ok := x.symConst[x.info.ObjectOf(id)]; ok {
+			return Term{S: k, Sort: "Int", T: x.typeOf(e)}
+		}
+	}
 	if tv, ok := x.info.Types[e]; ok && tv.Value != nil {
 		t := tv.Type
 		if b, ok := t.(*types.Basic); ok && b.Info()&types.IsUntyped != 0 {
@@ -139,7 +152,7 @@ func (x *Exec) eval(e ast.Expr, st *State) Term {
 			return v
 		case *types.Array:
 			i := x.eval(n.Index, st)
-			x.oblige(st, "bounds", "", n, and(app("<=", "0", i.S), app("<", i.S, fmt.Sprint(u.Len()))))
+			x.oblige(st, "bounds", "", n, and(app("<=", "0", i.S), app("<", i.S, x.arrayLen(u))))
 			v := x.define(st, "elem", Term{S: app("select", base.S, i.S), Sort: x.ctx.sortOf(u.Elem()), T: u.Elem()})
 			st.assume(x.typeInv(st, v))
 			return v
@@ -890,7 +903,7 @@ func (x *Exec) evalBuiltin(call *ast.CallExpr, name string, st *State) []Term {
 			return []Term{{S: app("strlen", v.S), Sort: "Int", T: intT}}
 		}
 		if a, ok := v.T.Underlying().(*types.Array); ok {
-			return []Term{mkInt(a.Len())}
+			return []Term{{S: x.arrayLen(a), Sort: "Int", T: intT}}
 		}
 		if mt, ok := v.T.Underlying().(*types.Map); ok {
 			return []Term{x.mapLen(st, v, mt)}
